@@ -117,7 +117,18 @@ func runC06Child(cfg *runCfg) error {
 	for {
 		line, err := in.ReadString('\n')
 		line = strings.TrimSpace(line)
-		if line != "" {
+		if strings.HasPrefix(line, "{") {
+			var sc c06Scenario
+			if jerr := json.Unmarshal([]byte(line), &sc); jerr != nil {
+				return jerr
+			}
+			fmt.Fprintf(os.Stderr, "CASE %s\n", line[:min(len(line), 200)])
+			o := c06RunInflight(&sc)
+			b, _ := json.Marshal(o)
+			out.Write(b)
+			out.WriteByte('\n')
+			out.Flush()
+		} else if line != "" {
 			parts := strings.SplitN(line, " ", 2)
 			stream, _ := hex.DecodeString(strings.TrimPrefix(parts[1], "x"))
 			fmt.Fprintf(os.Stderr, "CASE %s\n", line[:min(len(line), 80)])
@@ -177,6 +188,22 @@ func (c *c06Child) run(handler bool, stream []byte) (c06StreamObs, bool) {
 	return o, true
 }
 
+func (c *c06Child) runInflight(sc *c06Scenario) (c06InflightObs, bool) {
+	b, _ := json.Marshal(sc)
+	if _, err := fmt.Fprintf(c.stdin, "%s\n", b); err != nil {
+		return c06InflightObs{}, false
+	}
+	line, err := c.stdout.ReadString('\n')
+	if err != nil {
+		return c06InflightObs{}, false
+	}
+	var o c06InflightObs
+	if json.Unmarshal([]byte(line), &o) != nil {
+		return c06InflightObs{}, false
+	}
+	return o, true
+}
+
 func (c *c06Child) kill() string {
 	c.stdin.Close()
 	done := make(chan struct{})
@@ -201,6 +228,58 @@ func (c *c06Child) kill() string {
 }
 
 // ---------- generators ----------
+
+// c06Frags: pieces of a topic — ASCII, complete multi-byte characters, and every way UTF-8 can
+// be ill-formed (stray continuation byte, truncated lead, overlong forms, surrogate, F8..FF).
+var c06Frags = [][]byte{
+	[]byte("a"), []byte("/"),
+	{0xC3, 0xA9},             // é
+	{0xE2, 0x82, 0xAC},       // €
+	{0xF0, 0x9F, 0x98, 0x80}, // 4-byte character
+	{0xFF}, {0x80}, {0xBF},
+	{0xC3}, {0xE2, 0x82}, {0xF0, 0x9F, 0x98}, // truncated sequences
+	{0xC0, 0x80}, {0xE0, 0x80, 0x80}, {0xF0, 0x80, 0x80, 0x80}, // overlong forms of U+0000
+	{0xC1, 0xBF},             // overlong ASCII
+	{0xED, 0xA0, 0x80},       // surrogate
+	{0xF4, 0x90, 0x80, 0x80}, // above U+10FFFF
+	{0xF8, 0x88, 0x80, 0x80, 0x80},
+}
+
+// c06NulTopics: topics mixing multi-byte / ill-formed UTF-8 with the byte 00 at every position:
+// before, after, between two fragments, inside a sequence (after each of its bytes), as the last
+// byte; first the three examples of seeded change C06-4.
+func c06NulTopics() [][]byte {
+	out := [][]byte{[]byte("\u00e9\x00"), []byte("caf\u00e9/\x00/x"), []byte("\xff\x00")}
+	cat := func(parts ...[]byte) []byte {
+		var b []byte
+		for _, p := range parts {
+			b = append(b, p...)
+		}
+		return b
+	}
+	nul := []byte{0}
+	for _, f := range c06Frags {
+		out = append(out, cat(nul, f), cat(f, nul), cat(f, nul, f), cat([]byte("t/"), f, nul), cat(f, []byte("x"), nul, []byte("y")))
+		for k := 1; k < len(f); k++ {
+			out = append(out, cat(f[:k], nul, f[k:])) // 00 inside the sequence
+		}
+	}
+	for _, f := range c06Frags {
+		for _, g := range c06Frags {
+			out = append(out, cat(f, nul, g), cat(f, g, nul))
+		}
+	}
+	return out
+}
+
+// c06HighTopics: the same fragments without any 00 (accepted; ill-formed parts arrive as U+FFFD)
+func c06HighTopics() [][]byte {
+	var out [][]byte
+	for _, f := range c06Frags {
+		out = append(out, append([]byte{}, f...), append(append([]byte("t/"), f...), 'x'))
+	}
+	return out
+}
 
 func c06GoodPacket(r *rand.Rand) []byte {
 	id := uint16(1 + r.Intn(3))
@@ -243,6 +322,10 @@ func c06BadPacket(r *rand.Rand) ([]byte, string) {
 	case 6:
 		return []byte{0x30, 4, 0, 9, 'a', 'b'}, "topic-longer-than-body"
 	case 7:
+		if r.Intn(2) == 0 {
+			ts := c06NulTopics()
+			return encPublish(inMsg{Topic: ts[r.Intn(len(ts))], QoS: 0, Payload: []byte{1}}), "nul-in-topic"
+		}
 		return []byte{0x30, 5, 0, 3, 'a', 0, 'b'}, "nul-in-topic"
 	case 8:
 		return []byte{0x20, byte([]int{0, 1, 3}[r.Intn(3)]), 0, 0, 0}[:2+[]int{0, 1, 3}[r.Intn(3)]], "connack-length"
@@ -261,16 +344,19 @@ func c06BadPacket(r *rand.Rand) ([]byte, string) {
 
 func runC06(cfg *runCfg) error {
 	r := rand.New(rand.NewSource(cfg.seed))
-	cf := newCasesFile("C06", "Codec", "Inbound", "Parse", "CheckC06")
+	cf := newCasesFile("C06", "Codec", "Inbound", "Parse", "ParseSpec", "ParsePending", "CheckC06")
 	m := &meta{Property: "C06", Distribution: map[string]interface{}{}, Families: map[string][]interface{}{}}
 	dist := map[string]int{}
 
 	// ---- parse: every (type, flag) with every body over a 5-byte alphabet up to length L, plus random ----
 	L := 2
 	nRandParse := 1500
-	if cfg.tier != "quick" {
+	switch cfg.tier {
+	case "thorough":
 		L = 3
 		nRandParse = 20000
+	case "search":
+		nRandParse = 6000
 	}
 	alpha := []byte{0, 1, 2, 0x80, 0xFF}
 	var bodies [][]byte
@@ -340,6 +426,21 @@ func runC06(cfg *runCfg) error {
 		}
 		addParse(typ, flag, body)
 	}
+	// PUBLISH bodies whose topic mixes multi-byte / ill-formed UTF-8 with U+0000 at every position
+	nulTopics := c06NulTopics()
+	nNulParse := 0
+	for i, t := range append(append([][]byte{}, nulTopics...), c06HighTopics()...) {
+		fl := []byte{0, 2, 4, 1, 11, 13}[i%6]
+		body := encStr(t)
+		if fl&6 != 0 {
+			body = append(body, 0, byte(1+i%200))
+		}
+		if i%3 == 0 {
+			body = append(body, 'p', 0, 0xC3)
+		}
+		addParse(3, fl, body)
+		nNulParse++
+	}
 	cf.def("parse_cases", "list (N * N * list N * parse_obs)", cList(parseCases))
 	cf.result("V_parse", "c06_parse_violations parse_cases")
 	cf.result("M_parse", "c06_parse_mismatches parse_cases")
@@ -352,8 +453,11 @@ func runC06(cfg *runCfg) error {
 	}
 	var scs []sc
 	nStream := 350
-	if cfg.tier != "quick" {
+	switch cfg.tier {
+	case "thorough":
 		nStream = 4000
+	case "search":
+		nStream = 1200
 	}
 	// corpus of the repaired defects first
 	scs = append(scs,
@@ -364,6 +468,26 @@ func runC06(cfg *runCfg) error {
 		sc{true, []byte{0x30, 0xFF, 0xFF, 0xFF, 0x7F, 0x00}, "corpus:max-length-truncated"},
 		sc{true, []byte{0x30, 0xFF, 0xFF, 0xFF, 0xFF, 0x7F}, "corpus:length-5-bytes-max"},
 	)
+	// a good PUBLISH, then a PUBLISH whose topic has U+0000 somewhere among multi-byte / ill-formed
+	// UTF-8, then another good one: only the first may be delivered, the link must end with an error
+	good1 := encPublish(inMsg{Topic: []byte("caf\u00e9"), QoS: 0, Payload: []byte{1}})
+	good2 := encPublish(inMsg{Topic: []byte("after"), QoS: 0, Payload: []byte{2}})
+	nNulStream := 0
+	for i, t := range nulTopics {
+		// quick tier: the examples, every single-fragment position, and a seed-dependent sample of the pairs
+		if cfg.tier == "quick" && i >= 3+len(c06Frags)*5+30 && r.Intn(8) != 0 {
+			continue
+		}
+		q := byte(i % 3)
+		bad := encPublish(inMsg{Topic: t, QoS: q, ID: uint16(5 + i%7), Payload: []byte{byte(i)}})
+		s := append(append(append([]byte{}, good1...), bad...), good2...)
+		scs = append(scs, sc{i%5 != 4, s, "nul-in-topic-utf8"})
+		nNulStream++
+	}
+	for i, t := range c06HighTopics() {
+		s := append(append([]byte{}, encPublish(inMsg{Topic: t, QoS: byte(i % 2), ID: 9, Payload: []byte{7}})...), good2...)
+		scs = append(scs, sc{true, s, "high-bytes-no-nul"})
+	}
 	for i := 0; i < nStream; i++ {
 		var s []byte
 		label := ""
@@ -442,16 +566,85 @@ func runC06(cfg *runCfg) error {
 	cf.result("V_stream", "c06_stream_violations stream_cases")
 	cf.result("M_stream", "c06_stream_mismatches stream_cases")
 
+	// ---- hostile acknowledgements for requests in flight, in a child process ----
+	child, err = c06Spawn()
+	if err != nil {
+		return err
+	}
+	var inflightCases []string
+	nInflight := 0
+	for _, sc := range c06InflightScenarios(r, cfg.tier) {
+		o, ok := child.runInflight(sc)
+		if !ok {
+			crash := child.kill()
+			nCrash++
+			canon := []byte{}
+			for _, p := range sc.Burst {
+				canon = append(canon, p.render(c06CanonID)...)
+			}
+			o = c06InflightObs{Survived: false, Crash: crash, Canon: canon}
+			child, err = c06Spawn()
+			if err != nil {
+				return err
+			}
+		}
+		if strings.HasPrefix(o.Crash, "connect:") {
+			return fmt.Errorf("inflight scenario could not connect: %s", o.Crash)
+		}
+		errc := "None"
+		if p := cPerr(o.Err); p != "" {
+			errc = "(Some " + p + ")"
+		}
+		closedOK := len(o.States) == 2 && o.States[0] == "Active:nil" && o.States[1] == "Closed:"+o.Err && o.Err != "nil"
+		var reqs []string
+		var reqDesc []string
+		for _, rq := range sc.Reqs {
+			reqs = append(reqs, c06ReqCoq(rq))
+			reqDesc = append(reqDesc, fmt.Sprintf("%s%x", rq.Kind, rq.QoS))
+		}
+		var rels []string
+		for _, j := range o.Rels {
+			rels = append(rels, cNat(j))
+		}
+		var labels []string
+		for _, p := range sc.Burst {
+			labels = append(labels, p.Label)
+		}
+		alive := o.Survived && len(o.Stuck) == 0
+		inflightCases = append(inflightCases, cTuple(cBool(sc.Handler), cListInline(reqs), cBytes(o.Canon), cBool(alive), errc,
+			cBool(closedOK && o.Done), cListInline(o.Events), cListInline(o.Results), cListInline(rels)))
+		kind := strings.SplitN(sc.Label, ":", 2)[0]
+		dist["inflight_"+kind]++
+		dist["inflight_end_"+o.Err]++
+		for _, rd := range o.ResDesc {
+			dist["inflight_call_"+strings.Fields(rd)[0]]++
+		}
+		fc := map[string]interface{}{"requests_in_flight": reqDesc, "answer": labels, "answer_bytes_ids_renamed": fmt.Sprintf("%x", o.Canon),
+			"answer_bytes_sent": fmt.Sprintf("%x", o.Wire), "handler": sc.Handler, "kind": sc.Label, "survived": o.Survived, "stuck": o.Stuck,
+			"err": o.Err, "states": o.States, "call_results": o.ResDesc, "pubrel_by": o.Rels, "timeline": o.Desc, "crash": o.Crash}
+		m.Families["inflight"] = append(m.Families["inflight"], fc)
+		if sc.Label == "random" && nInflight%40 == 0 && len(m.Samples) < 6 {
+			m.Samples = append(m.Samples, fc)
+		}
+		nInflight++
+	}
+	child.kill()
+	cf.def("inflight_cases", "list inflight_case", cList(inflightCases))
+	cf.result("V_inflight", "c06_inflight_violations inflight_cases")
+	cf.result("M_inflight", "c06_inflight_mismatches inflight_cases")
+
 	for k, v := range dist {
 		m.Distribution[k] = v
 	}
+	m.Distribution["parse_nul_utf8_topics"] = nNulParse
+	m.Distribution["stream_nul_utf8_topics"] = nNulStream
 	m.Distribution["parse_enumerated"] = nEnumParse
 	m.Distribution["parse_random"] = nRandParse
 	m.Distribution["parse_panics"] = nPanic
 	m.Distribution["stream_crashes"] = nCrash
-	m.Evaluations = len(parseCases) + len(streamCases)
-	m.DistinctNontrivial = nEnumParse + len(streamCases) - dist["stream_all-good"]
-	m.Rule = fmt.Sprintf("parsers: every (type, flag) x every body over {00,01,02,80,FF} up to length %d through the hook VerifParse (panics recovered), plus %d random/structured bodies; streams: corpus of the repaired defects, then good packets followed by a malformed packet of 14 kinds / truncation / one-byte mutation / random bytes, fed to a connected BaseClient in a child process with a 6 GiB address-space limit (a crash is attributed to the exact stream). distinct_nontrivial = enumerated parser inputs (distinct by construction) + streams that are not all-good", L, nRandParse)
+	m.Evaluations = len(parseCases) + len(streamCases) + len(inflightCases)
+	m.DistinctNontrivial = nEnumParse + nNulParse + len(streamCases) - dist["stream_all-good"] + len(inflightCases)
+	m.Rule = fmt.Sprintf("parsers: every (type, flag) x every body over {00,01,02,80,FF} up to length %d through the hook VerifParse (panics recovered), plus %d random/structured bodies, plus %d PUBLISH bodies whose topic mixes multi-byte / ill-formed UTF-8 fragments with the byte 00 at every position (and the same fragments without 00); streams: corpus of the repaired defects, good PUBLISH + PUBLISH with such a topic + good PUBLISH, then good packets followed by a malformed packet of 14 kinds / truncation / one-byte mutation / random bytes, fed to a connected BaseClient in a child process with a 6 GiB address-space limit (a crash is attributed to the exact stream); in flight: 1-3 blocking calls (Subscribe with 1-4 filters, Unsubscribe, Publish QoS 1/2, Ping) on a connected BaseClient in a child process, the peer answers with hostile acknowledgements carrying their identifiers (SUBACK with 0/n-1/n+1/n+5/255 codes, failure and illegal codes, flags, short and long bodies, duplicates, other kinds, CONNACK again, truncation), enumerated per request kind plus random combinations. distinct_nontrivial = enumerated parser inputs (distinct by construction) + streams that are not all-good + in-flight scenarios", L, nRandParse, nNulParse)
 	m.Exhaustive = true
 	if err := cf.write(cfg.outDir); err != nil {
 		return err
